@@ -26,6 +26,14 @@ VALIDATORS = {
     "always": lambda claims, v: True,
     "eq_x": lambda claims, v: v == "x",
     "has_sub": lambda claims, v: "sub" in claims,
+    # validators that answer with something other than True / False: what counts is the truthiness of the answer
+    "none": lambda claims, v: None,
+    "zero": lambda claims, v: 0,
+    "empty": lambda claims, v: "",
+    "empty_list": lambda claims, v: [],
+    "one": lambda claims, v: 1,
+    "text": lambda claims, v: "no",
+    "match_x": lambda claims, v: __import__("re").fullmatch("x+", v) if isinstance(v, str) else None,
 }
 
 
@@ -88,7 +96,8 @@ def option_pool():
             {"values": ["x", "y"]}, {"values": []}, {"values": [NOW, "x"]}, {"validate": "is_str"},
             {"validate": "never"}, {"essential": True, "value": "x"}, {"essential": True, "values": ["x"]},
             {"value": "x", "values": ["y"]}, {"value": "x", "validate": "has_sub"}, {"value": ["x"]},
-            {"value": True}, {"values": [["x"]]}]
+            {"value": True}, {"values": [["x"]]}, {"validate": "none"}, {"validate": "zero"}, {"validate": "empty"}, {"validate": "empty_list"},
+            {"validate": "one"}, {"validate": "text"}, {"validate": "match_x"}, {"essential": True, "validate": "none"}]
 
 
 ABSENT = object()
